@@ -66,6 +66,11 @@ class SimEntropy:
             if "repeat" in d:
                 j = d["repeat"]
                 return self.history[j] % bound if 0 <= j < len(self.history) else self.rng.randrange(bound)
+        if d == "RAISE":
+            if self.faults is not None:
+                self.faults.hit("entropy-unavailable")
+            self.log.add(self.op, "rng", "raise", "")
+            raise OSError(5, "simulated: entropy source unavailable")
         if d == "ZERO":
             return 0
         if d == "ONE":
@@ -87,7 +92,7 @@ class SimEntropy:
         self._count()
         d = self._directive()
         v = self._resolve(d, bound)
-        if self.faults is not None and isinstance(d, str):
+        if self.faults is not None and isinstance(d, str) and d != "RAISE":
             self.faults.hit("draw-" + d)
         self.history.append(v)
         self.draws.append((self.op, "randbelow", bound, v))
